@@ -16,6 +16,10 @@ Scenario JSON: {"fl": "plain"|"ts", "kind": "soon"|"rel",
                         never started yet, or — smode != pre — was stopped after running; restarted after the return),
                 "delay": ticks (fractions allowed), "gap": ticks the user waits between schedule and dispose,
                 "via": "rel" + "delay0": 0.0|-1.0|"td0" (kind soon): scheduled through schedule_relative with a delay <= 0,
+                "via": "abs" (+ "tz": hours) (kind rel): schedule_absolute with the due instant, optionally in another zone,
+                "busy": the loop thread is inside a slow callback while the user schedules and disposes,
+                "handover": the loop first runs on thread A (with one on-loop dispose there), is stopped and run by
+                            thread B; A then schedules and disposes as a foreign thread,
                 "registered": the user thread called asyncio.set_event_loop(loop) (the loop runs elsewhere),
                 "first": thread, "pre": [[step, to], ...]}
 """
@@ -47,7 +51,17 @@ class CoopFuture:
     def result(self, timeout=None):
         ctl = tc.CURRENT
         if ctl is not None and ctl.me() is not None:
-            ctl.wait_until(lambda: self._done)
+            if timeout is None:
+                ctl.wait_until(lambda: self._done)
+            else:
+                # the timeout runs on the controlled clock: it elapses when the loop thread is held (inside a slow
+                # callback) for longer than that
+                deadline = ctl.clock + float(timeout)
+                ctl.wait_until(lambda: self._done or ctl.clock >= deadline, wake_at=deadline)
+                if not self._done:
+                    import concurrent.futures
+
+                    raise concurrent.futures.TimeoutError()
         elif not self._done:
             raise RuntimeError("uncontrolled thread would block on a future")
         return self._res
@@ -101,7 +115,7 @@ class SteppableLoop(asyncio.SelectorEventLoop):
             return min(live) if live else None
 
         def wake():
-            if len(self._ready) or (rs["stop_req"] and not rs["stopped"]):
+            if len(self._ready) or (rs["stop_req"] and not rs["stopped"]) or (rs.get("handover_req") and not rs.get("handed_over")):
                 return True
             w = nxt()
             if w is None:
@@ -127,12 +141,13 @@ class SteppableLoop(asyncio.SelectorEventLoop):
         """model action of the calling thread: the loop thread is 0, except while it executes the user's
         schedule/dispose call (mode onLoop), which the model attributes to the user (1)"""
         me = self.ctl.me()
-        if me is not None and me.idx == 0 and not self.run_state["user_call_on_loop"]:
+        if me is not None and me.idx == self.run_state["loop_tid"] and not self.run_state["user_call_on_loop"]:
             return 0
         return 1
 
     def ev(self, action, label):
-        self.ctl.log.append(("ev", action, label))
+        if not self.run_state.get("muted"):
+            self.ctl.log.append(("ev", action, label))
 
     def on_ready_append(self, h, caller):
         n = self.hid(h)
@@ -242,7 +257,14 @@ def run_case(case, wall=8.0, max_steps=4000):
                         max_steps=max_steps, auto_clock=True)
     run = {"ts_rel": fl == "ts" and kind == "rel", "user_done": False, "cur_cb": None, "user_call_on_loop": False,
            "when": None, "returned": False, "starts": [], "disp": None, "loop_thread": None, "late": False,
-           "scheduled": False, "stop_req": False, "stopped": False, "in_sched": False}
+           "scheduled": False, "stop_req": False, "stopped": False, "in_sched": False, "loop_tid": 0, "muted": False,
+           "handover_req": False, "handed_over": False, "busy_started": False}
+    import reactivex.scheduler.scheduler as SCH
+    from datetime import datetime, timedelta, timezone
+
+    EPOCH = datetime(2031, 1, 1, tzinfo=timezone.utc)
+    saved_now = SCH.default_now
+    SCH.default_now = lambda: EPOCH + timedelta(seconds=ctl.clock)  # scheduler.now on the controlled loop clock
     restore = None
     loop = None
     import logging
@@ -256,7 +278,8 @@ def run_case(case, wall=8.0, max_steps=4000):
 
             def action(scheduler, state=None):
                 me = ctl.me()
-                run["starts"].append({"thread": me.idx if me else -1, "clock": ctl.clock, "after_return": run["returned"],
+                run["starts"].append({"thread": me.idx if me else -1, "on_loop": me is not None and me.idx == run["loop_tid"],
+                                      "clock": ctl.clock, "after_return": run["returned"],
                                       "inside_schedule_call": run["in_sched"] is not False and run["in_sched"] == (me.idx if me else -1)})
                 if run["returned"]:
                     run["late"] = True
@@ -269,11 +292,15 @@ def run_case(case, wall=8.0, max_steps=4000):
                     if kind == "soon" and case.get("via") == "rel":
                         # an already-due relative schedule: zero / negative delay
                         d0 = case.get("delay0", 0.0)
-                        from datetime import timedelta
-
                         run["disp"] = sched.schedule_relative(timedelta(0) if d0 == "td0" else float(d0), action)
                     elif kind == "soon":
                         run["disp"] = sched.schedule(action)
+                    elif case.get("via") == "abs":
+                        # the same instant, optionally written as an aware datetime of another zone
+                        when = EPOCH + timedelta(seconds=ctl.clock + delay)
+                        if case.get("tz") is not None:
+                            when = when.astimezone(timezone(timedelta(hours=case["tz"])))
+                        run["disp"] = sched.schedule_absolute(when, action)
                     else:
                         run["disp"] = sched.schedule_relative(float(delay), action)
                 finally:
@@ -342,6 +369,14 @@ def run_case(case, wall=8.0, max_steps=4000):
                     do_sched()
                 else:
                     ctl.wait_until(lambda: loop.is_running())
+                    if case.get("busy"):
+                        # the loop thread is held inside a slow synchronous callback (1 s of loop time)
+                        def busy_cb():
+                            run["busy_started"] = True
+                            sleep_until(ctl.clock + 1)
+
+                        asyncio.BaseEventLoop.call_soon_threadsafe(loop, busy_cb)
+                        ctl.wait_until(lambda: run["busy_started"])
                     if smode == "onLoop":
                         on_loop(do_sched)
                         ctl.wait_until(lambda: run["scheduled"])
@@ -366,10 +401,68 @@ def run_case(case, wall=8.0, max_steps=4000):
                         do_disp()
                 run["user_done"] = True
 
-            ctl.spawn(loop_body, "loop")
-            ctl.spawn(user_body, "user")
+            if case.get("handover"):
+                # thread A (0) runs the loop first, with one on-loop dispose of a dummy action; the loop is then stopped
+                # and run by thread B (2); A goes on as an ordinary (foreign) thread: schedules and disposes
+                def run_loop_until(cond):
+                    set_running(True)
+                    try:
+                        while not cond():
+                            loop._run_once()
+                    finally:
+                        set_running(False)
+
+                def a_body():
+                    run["muted"] = True
+                    loop._check_closed()
+                    run_loop_until(lambda: run["handover_req"])
+                    run["handed_over"] = True
+                    run["muted"] = False
+                    ctl.wait_until(lambda: run["loop_tid"] == 2 and loop.is_running())
+                    if registered:
+                        asyncio.set_event_loop(loop)
+                    try:
+                        do_sched()
+                        if gap:
+                            sleep_until(ctl.clock + gap)
+                        do_disp()
+                    finally:
+                        if registered:
+                            asyncio.set_event_loop(None)
+                    run["user_done"] = True
+
+                def coordinator():
+                    ctl.wait_until(lambda: loop.is_running())
+                    done = []
+
+                    def dummy():
+                        d = sched.schedule_relative(5.0, lambda sc, st=None: None) if kind == "rel" else sched.schedule(lambda sc, st=None: None)
+                        d.dispose()  # a dispose on the loop thread A
+                        done.append(1)
+
+                    asyncio.BaseEventLoop.call_soon_threadsafe(loop, dummy)
+                    ctl.wait_until(lambda: done)
+                    run["handover_req"] = True
+
+                def b_body():
+                    ctl.wait_until(lambda: run["handed_over"])
+                    run["loop_tid"] = 2
+
+                    def finished():
+                        live = [h for h in loop._scheduled if not h._cancelled]
+                        return run["user_done"] and not len(loop._ready) and not live
+
+                    run_loop_until(finished)
+
+                ctl.spawn(a_body, "loopA-then-user")
+                ctl.spawn(coordinator, "coordinator")
+                ctl.spawn(b_body, "loopB")
+            else:
+                ctl.spawn(loop_body, "loop")
+                ctl.spawn(user_body, "user")
         outcome = ctl.run()
     finally:
+        SCH.default_now = saved_now
         if restore:
             restore()
         if loop is not None:
@@ -396,4 +489,5 @@ def run_case(case, wall=8.0, max_steps=4000):
     excs = [f"{t.idx}:{type(t.exc).__name__}:{t.exc}" for t in ctl.threads if t.exc is not None]
     return {"outcome": outcome, "events": evs, "starts": run["starts"], "returned": run["returned"], "late": run["late"],
             "steps": ctl.steps, "choices": ctl.choices, "kinds": ctl.kinds, "preempted": ctl.preempted, "excs": excs,
+            "nthreads": len(ctl.threads),
             "sched_clock": run.get("sched_clock"), "delay": delay}
